@@ -42,13 +42,19 @@ fn skeleton_key(heights: &[u8], counter: u64) -> HssPrivateKey<H> {
     let leafs = CompressedUsedLeafsIndexes::new(counter).to(&parameters);
     let mut key = HssPrivateKey::<H>::default();
     for (i, parameter) in parameters.iter().enumerate() {
-        key.private_key.push(LmsPrivateKey::new(
+        let mut lms_key = LmsPrivateKey::new(
             Seed::default(),
             LmsTreeIdentifier::default(),
             leafs[i],
             *parameter.get_lmots_parameter(),
             *parameter.get_lms_parameter(),
-        ));
+        );
+        // `HssPrivateKey::from` signs the child public key with every upper level, which takes
+        // that level's current leaf into use; do the same here, without generating any tree.
+        if i + 1 < parameters.len() {
+            let _ = lms_key.use_lmots_private_key();
+        }
+        key.private_key.push(lms_key);
     }
     key
 }
